@@ -186,18 +186,19 @@ def definition_size(ctx, w, n, k):
         w.api("DeleteStateMachine", {"stateMachineArn": body["stateMachineArn"]})
 
 
-def name_size(ctx, w, name, k):
+def name_size(ctx, w, name, k, front="asyncio"):
     place = "name"
     ctx.evaluation(); ctx.count("place:" + place)
     bad = set(" <>{}[]?*\"#%\\^|~`$&,;:/")
     ok = 1 <= len(name) <= L_NAME and not (set(name) & bad) and not any(ord(c) < 32 or 127 <= ord(c) <= 159 for c in name)
-    case = dict(place=place, name=name if len(name) < 30 else name[:10] + "...(%d)" % len(name))
+    case = dict(place=place, name=name if len(name) < 30 else name[:10] + "...(%d)..." % len(name) + name[-3:], front_end=front)
+    ctx.count("name_front_end:" + front)
     if abs(len(name) - L_NAME) <= 2 or (set(name) & bad):
         ctx.nontrivial(case)
     d = json.dumps({"StartAt": "A", "States": {"A": {"Type": "Pass", "End": True}}})
     for action, params in (("CreateStateMachine", {"name": name, "definition": d, "roleArn": ROLE}),
                            ("StartExecution", {"stateMachineArn": w.sm_arn("std"), "name": name, "input": "{}"})):
-        code, body = w.api(action, params)
+        code, body = w.api(action, params, flavour=front)
         if ok and code != 200:
             ctx.violation("valid-name-refused", dict(case, action=action, code=code, body=str(body)[:200]), None)
         if not ok and not (code == 400 and isinstance(body, dict) and body.get("__type") == "InvalidName"):
@@ -263,10 +264,14 @@ def run(ctx):
             if ctx.mine(i):
                 definition_size(ctx, world(), n, i)
         names = ["x" * k for k in (1, 2, 78, 79, 80, 81, 82, 200)] + [""] + ["a%sb" % c for c in " <>{}[]?*\"#%\\^|~`$&,;:/"] + ["a\nb", "a\tb", "ok-name_1.x", "x" * 79 + ":"]
-        for name in names:
-            i += 1
-            if ctx.mine(i):
-                name_size(ctx, world(), name, i)
+        # a forbidden or control character at the first, a middle and the LAST position (also as the 80th and the 81st character)
+        for c in list(" <>{}[]?*\"#%\\^|~`$&,;:/") + ["\n", "\r", "\t", "\x00", "\x1f", "\x7f", "\x85", "\x9f"]:
+            names += [c + "ab", "ab" + c, "x" * 79 + c, "x" * 80 + c]
+        for front in ("asyncio", "blocking"):
+            for name in names:
+                i += 1
+                if ctx.mine(i):
+                    name_size(ctx, world(), name, i, front)
     finally:
         if w is not None:
             w.close()
